@@ -14,6 +14,7 @@ package main
 import (
 	"bytes"
 	"encoding/binary"
+	"encoding/hex"
 	"fmt"
 	"net"
 	"os"
@@ -45,7 +46,8 @@ type PoolCfg struct {
 type HOp struct {
 	K     string `json:"k"`                // disc req rel dec age clean vlan
 	C     int    `json:"c"`                // client index
-	ReqIP string `json:"req_ip,omitempty"` // req/dec: option 50 ("" = the address offered to / held by the client)
+	ReqIP string `json:"req_ip,omitempty"` // req/dec/rel: option 50 ("" = kind's default: the address offered to / held by the client for req and dec, absent for rel; "none" = absent; "other" = another address of the pool; else literal)
+	Ci    string `json:"ci,omitempty"`     // ciaddr ("" = kind's default: the held address for rel, absent otherwise; "none" | "own" | "other" | literal)
 	Relay bool   `json:"relay,omitempty"`
 	Cid   []byte `json:"cid,omitempty"`
 	D     int    `json:"d,omitempty"` // age: seconds
@@ -59,6 +61,7 @@ type Probe struct {
 	Now    uint64 `json:"now,omitempty"`     // route n: absolute ktime (ns) when NowRel is ""
 	NowRel string `json:"now_rel,omitempty"` // route n: "exp-1" | "exp" | "exp+1": seconds relative to the client's lease_expiry
 	C      int    `json:"c"`                 // client the frame was generated for (tags only)
+	At     int    `json:"at,omitempty"`      // probe after this many history ops (0 = after all of them)
 }
 
 type RawMaps struct { // raw mode: map contents written by the harness
@@ -79,6 +82,14 @@ type Case struct {
 	Raw       *RawMaps `json:"raw,omitempty"`
 	Probes    []Probe  `json:"probes"`
 	Note      string   `json:"note,omitempty"`
+	HW        map[int][]byte `json:"hw,omitempty"` // client index -> hardware address (0..16 bytes; default: clientMAC)
+}
+
+func (c Case) hw(i int) []byte {
+	if h, ok := c.HW[i]; ok {
+		return h
+	}
+	return clientMAC(i)
 }
 
 const prog = "dhcp_fastpath_prog"
@@ -92,6 +103,7 @@ type env struct {
 	kernelRuns, nativeRuns, kvCompared, kvDisagree, faults int
 	disagreeNote                                           string
 	slowReplies, slowSilent                                int
+	badChecksums, secondFolds                              int
 }
 
 func must(err error) {
@@ -130,6 +142,19 @@ type FrameSpec struct {
 	Options  []byte
 	PadTo    int // pad the options area with zeros to at least this many bytes
 	CutTotal int // != 0: final frame length = natural length + CutTotal (negative: truncate, positive: append zeros)
+	// BOOTP / IP header fields the reply construction must carry over or rewrite (zero value = the usual request)
+	Chaddr  []byte // all 16 chaddr bytes (nil: MAC followed by zeros)
+	HlenSet bool
+	Hlen    byte
+	Htype   byte // 0 = 1 (Ethernet)
+	HopsSet bool
+	Hops    byte
+	Secs    uint16
+	TOS     byte
+	IPIDSet bool
+	IPID    uint16
+	Frag    uint16
+	TTL     byte
 }
 
 func ipChecksum(h []byte) uint16 {
@@ -153,14 +178,28 @@ func ip4(s net.IP) []byte {
 func bootp(fs FrameSpec) []byte {
 	b := make([]byte, 240)
 	b[0], b[1], b[2] = 1, 1, 6
+	if fs.Htype != 0 {
+		b[1] = fs.Htype
+	}
+	if fs.HlenSet {
+		b[2] = fs.Hlen
+	}
 	if fs.Giaddr != nil {
 		b[3] = 1
 	}
+	if fs.HopsSet {
+		b[3] = fs.Hops
+	}
+	binary.BigEndian.PutUint16(b[8:], fs.Secs)
 	binary.BigEndian.PutUint32(b[4:], fs.XID)
 	binary.BigEndian.PutUint16(b[10:], fs.Flags)
 	copy(b[12:], ip4(fs.Ciaddr))
 	copy(b[24:], ip4(fs.Giaddr))
-	copy(b[28:], fs.MAC)
+	copy(b[28:44], fs.MAC)
+	if fs.Chaddr != nil {
+		copy(b[28:44], make([]byte, 16))
+		copy(b[28:44], fs.Chaddr)
+	}
 	if fs.Sname {
 		copy(b[44:], []byte("bootserver.example"))
 		copy(b[108:], []byte("/tftpboot/pxelinux.0"))
@@ -198,7 +237,15 @@ func buildFrame(fs FrameSpec) []byte {
 	iph[0] = byte(ver<<4 | ihl&15)
 	binary.BigEndian.PutUint16(iph[2:], uint16(hl+8+len(payload)))
 	binary.BigEndian.PutUint16(iph[4:], uint16(fs.XID))
+	if fs.IPIDSet {
+		binary.BigEndian.PutUint16(iph[4:], fs.IPID)
+	}
+	iph[1] = fs.TOS
+	binary.BigEndian.PutUint16(iph[6:], fs.Frag)
 	iph[8], iph[9] = 128, 17
+	if fs.TTL != 0 {
+		iph[8] = fs.TTL
+	}
 	copy(iph[12:], ip4(fs.Ciaddr))
 	copy(iph[16:], []byte{255, 255, 255, 255})
 	if fs.Giaddr != nil {
@@ -209,10 +256,14 @@ func buildFrame(fs FrameSpec) []byte {
 		iph[i] = 1 // NOP options
 	}
 	binary.BigEndian.PutUint16(iph[10:], ipChecksum(iph))
-	src := fs.MAC
+	src := append([]byte(nil), fs.MAC...)
 	if fs.SrcMAC != nil {
 		src = fs.SrcMAC
 	}
+	for len(src) < 6 {
+		src = append(src, 0)
+	}
+	src = src[:6]
 	f := append([]byte{255, 255, 255, 255, 255, 255}, src...)
 	switch fs.Tags {
 	case 1:
@@ -288,7 +339,8 @@ type world struct {
 	pm      *dhcp.PoolManager
 	srv     *dhcp.Server
 	pool    *dhcp.Pool
-	events  []string       // Coq gev terms
+	quiet   bool           // a throw-away copy (slow view, survey): no Coq items, no dumps
+	items   []string       // Coq (op, out) pairs
 	status  map[string]int // MAC string -> 3 released / 4 declined / 2 expired (removed by cleanup)
 	cstatus map[string]int // hex(circuit-id) -> same
 	offered map[int]net.IP // client -> last address offered/acked
@@ -309,10 +361,90 @@ func prefixOf(cidr string) (net.IP, int) {
 	return n.IP.To4(), ones
 }
 
-func coqIP(s string) string { return vh.Bytes(net.ParseIP(s).To4()) }
+func coqIP(s string) string { return cb(net.ParseIP(s).To4()) }
 
-func (e *env) newWorld(c Case) *world {
-	w := &world{e: e, c: c, status: map[string]int{}, cstatus: map[string]int{}, offered: map[int]net.IP{}}
+func (w *world) emit(op, out string) {
+	if !w.quiet {
+		w.items = append(w.items, vh.Pair(op, out))
+	}
+}
+
+func macBytes(s string) []byte { // inverse of net.HardwareAddr.String for any length
+	if s == "" {
+		return []byte{}
+	}
+	var out []byte
+	for _, h := range strings.Split(s, ":") {
+		var b byte
+		fmt.Sscanf(h, "%02x", &b)
+		out = append(out, b)
+	}
+	return out
+}
+
+// snap: the observation after every handled message: raw kernel maps, lease table, circuit-ID index
+func (w *world) snap() {
+	if w.quiet {
+		return
+	}
+	d := w.e.dumpMaps()
+	sn := w.srv.VerifC02Snapshot(1)
+	type ent struct{ k, hw, ip []byte }
+	var ls, ix []ent
+	for _, l := range sn.Leases {
+		hw := macBytes(l.MAC)
+		ls = append(ls, ent{hw, hw, l.IP.To4()})
+	}
+	for k, l := range sn.ByCircuitID {
+		kb, _ := hex.DecodeString(k)
+		ix = append(ix, ent{kb, macBytes(l.MAC), l.IP.To4()})
+	}
+	sort.Slice(ls, func(a, b int) bool { return bytes.Compare(ls[a].k, ls[b].k) < 0 })
+	sort.Slice(ix, func(a, b int) bool { return bytes.Compare(ix[a].k, ix[b].k) < 0 })
+	if !fullSnap {
+		// FNV-1a over the serialisation Model/XdpDhcp.v snap_digest defines
+		h := uint64(14695981039346656037)
+		put := func(v uint64) { h = (h ^ v) * 1099511628211 }
+		pb := func(b []byte) {
+			put(uint64(len(b)))
+			for _, x := range b {
+				put(uint64(x))
+			}
+		}
+		for i := range d.m {
+			put(uint64(len(d.m[i])))
+			for _, kv := range d.m[i] {
+				pb(kv.Key)
+				pb(kv.Value)
+			}
+		}
+		pb(d.cfg)
+		for _, es := range [][]ent{ls, ix} {
+			put(uint64(len(es)))
+			for _, x := range es {
+				pb(x.k)
+				pb(x.hw)
+				pb(x.ip)
+			}
+		}
+		w.emit("Snap", fmt.Sprintf("OSnapH %d", h))
+		return
+	}
+	str := func(es []ent) string {
+		var it []string
+		for _, x := range es {
+			it = append(it, vh.Pair(cb(x.k), vh.Pair(cb(x.hw), cb(x.ip))))
+		}
+		return vh.List(it)
+	}
+	w.emit("Snap", fmt.Sprintf("OSnap %s %s %s %s %s %s %s", coqKV(d.m[0]), coqKV(d.m[1]), coqKV(d.m[2]), coqKV(d.m[3]), cb(d.cfg), str(ls), str(ix)))
+}
+
+// fullSnap: snapshots written in full (replays, VERIF_C03_FULLSNAP) instead of as digests
+var fullSnap = os.Getenv("VERIF_C03_FULLSNAP") != ""
+
+func (e *env) newWorld(c Case, quiet bool) *world {
+	w := &world{e: e, c: c, quiet: quiet, status: map[string]int{}, cstatus: map[string]int{}, offered: map[int]net.IP{}}
 	e.clearMaps()
 	var err error
 	w.loader, err = bngebpf.NewLoader("verif0", zap.NewNop())
@@ -332,15 +464,16 @@ func (e *env) newWorld(c Case) *world {
 	for _, d := range c.Pool.DNS {
 		dns = append(dns, coqIP(d))
 	}
-	w.events = append(w.events, fmt.Sprintf("GPool {| gp_id := 1; gp_net := %s; gp_prefix := %d; gp_gw := %s; gp_dns := %s; gp_lease := %d |}",
-		vh.Bytes(nw), pl, coqIP(c.Pool.Gateway), vh.List(dns), c.Pool.LeaseSec))
+	w.emit(fmt.Sprintf("Ev (GPool {| gp_id := 1; gp_net := %s; gp_prefix := %d; gp_gw := %s; gp_dns := %s; gp_lease := %d |})",
+		cb(nw), pl, coqIP(c.Pool.Gateway), vh.List(dns), c.Pool.LeaseSec), "OUnit")
 	w.srv, err = dhcp.NewServer(dhcp.ServerConfig{Interface: "verif0", ServerIP: net.ParseIP(c.ServerIP)}, w.loader, w.pm, zap.NewNop())
 	must(err)
 	if c.SetConfig {
 		// what Server.Start does with the interface's address and index (Start itself binds a socket)
 		must(w.loader.SetServerConfig(net.HardwareAddr(c.ServerMAC), net.ParseIP(c.ServerIP), 7))
-		w.events = append(w.events, fmt.Sprintf("GConfig %s %s 7", vh.Bytes(c.ServerMAC), coqIP(c.ServerIP)))
+		w.emit(fmt.Sprintf("Ev (GConfig %s %s 7)", cb(c.ServerMAC), coqIP(c.ServerIP)), "OUnit")
 	}
+	w.snap()
 	return w
 }
 
@@ -354,20 +487,40 @@ func opt82(cid []byte) []byte {
 
 var relayIP = net.IPv4(10, 200, 0, 1)
 
-func (w *world) request(kind byte, o HOp) *dhcpv4.DHCPv4 {
-	fs := FrameSpec{MAC: clientMAC(o.C), XID: 0x1000 + uint32(len(w.events))}
-	opts := []byte{53, 1, kind}
-	ip := w.offered[o.C]
-	if o.ReqIP != "" {
-		ip = net.ParseIP(o.ReqIP)
+// which address a history op names: mode "" / "none" / "own" / "other" / literal
+func (w *world) addr(mode string, own net.IP) net.IP {
+	switch mode {
+	case "", "none":
+		return nil
+	case "own":
+		return own
+	case "other":
+		if own == nil {
+			return net.ParseIP(w.c.Pool.Gateway)
+		}
+		return otherIP(own)
 	}
-	if (kind == 3 || kind == 4) && ip != nil {
+	return net.ParseIP(mode)
+}
+
+func (w *world) request(kind byte, o HOp) *dhcpv4.DHCPv4 {
+	hw := w.c.hw(o.C)
+	fs := FrameSpec{MAC: hw, Chaddr: append([]byte{}, hw...), HlenSet: true, Hlen: byte(len(hw)), XID: 0x1000 + uint32(len(w.items))}
+	opts := []byte{53, 1, kind}
+	own := w.offered[o.C]
+	rq := o.ReqIP
+	if rq == "" && (kind == 3 || kind == 4) {
+		rq = "own"
+	}
+	if ip := w.addr(rq, own); ip != nil {
 		opts = append(opts, 50, 4)
 		opts = append(opts, ip.To4()...)
 	}
-	if kind == 7 && ip != nil {
-		fs.Ciaddr = ip
+	ci := o.Ci
+	if ci == "" && kind == 7 {
+		ci = "own"
 	}
+	fs.Ciaddr = w.addr(ci, own)
 	if o.Relay {
 		fs.Giaddr = relayIP
 	}
@@ -381,7 +534,7 @@ func (w *world) request(kind byte, o HOp) *dhcpv4.DHCPv4 {
 
 type leaseSnap map[string]dhcp.VerifC02Lease
 
-func (w *world) snap() leaseSnap {
+func (w *world) leases() leaseSnap {
 	s := leaseSnap{}
 	for _, l := range w.srv.VerifC02Snapshot(1).Leases {
 		s[l.MAC] = l
@@ -403,9 +556,13 @@ func (w *world) ageCache(d int) {
 
 var peer = &net.UDPAddr{IP: net.IPv4bcast, Port: 68}
 
+// apply: one message through the real handler.  The Coq side is told WHICH message was handled (and, for
+// a REQUEST, that it was ACKed, with the values of the new lease); what that does to the lease table, the
+// circuit-ID index and the cache is the Model's business and is compared with the snapshot taken afterwards.
 func (w *world) apply(o HOp) {
-	before := w.snap()
-	mac := clientMAC(o.C).String()
+	before := w.leases()
+	hw := w.c.hw(o.C)
+	mac := net.HardwareAddr(hw).String()
 	switch o.K {
 	case "disc":
 		rs, _, err := w.srv.VerifC02Handle(w.request(1, o), peer)
@@ -417,7 +574,7 @@ func (w *world) apply(o HOp) {
 		rs, _, err := w.srv.VerifC02Handle(w.request(3, o), peer)
 		must(err)
 		if len(rs) == 1 && rs[0].MessageType() == dhcpv4.MessageTypeAck {
-			l, ok := w.snap()[mac]
+			l, ok := w.leases()[mac]
 			if !ok {
 				must(fmt.Errorf("ACK without lease for %s", mac))
 			}
@@ -426,41 +583,33 @@ func (w *world) apply(o HOp) {
 			if len(l.CircuitID) > 0 {
 				delete(w.cstatus, fmt.Sprintf("%x", l.CircuitID))
 			}
-			w.events = append(w.events, fmt.Sprintf("GAck %s %s %d %d %d %d %s", vh.Bytes(clientMAC(o.C)), vh.Bytes(l.IP.To4()),
-				l.PoolID, w.pool.VlanID, uint8(w.pool.ClientClass), l.ExpiresAt.Unix(), vh.Bytes(l.CircuitID)))
+			w.emit(fmt.Sprintf("Sv (SAck %s %s %d %d %d %d %s %v)", cb(hw), cb(l.IP.To4()),
+				l.PoolID, w.pool.VlanID, uint8(w.pool.ClientClass), l.ExpiresAt.Unix(), cb(o.Cid), o.Relay), "OUnit")
 		}
-	case "rel":
-		_, _, err := w.srv.VerifC02Handle(w.request(7, o), peer)
+	case "rel", "dec":
+		kind, st, ev := byte(7), 3, "SRelease"
+		if o.K == "dec" {
+			kind, st, ev = 4, 4, "SDecline"
+		}
+		_, _, err := w.srv.VerifC02Handle(w.request(kind, o), peer)
 		must(err)
 		if l, had := before[mac]; had {
-			if _, has := w.snap()[mac]; !has {
-				w.status[mac] = 3
+			if _, has := w.leases()[mac]; !has {
+				w.status[mac] = st
 				if len(l.CircuitID) > 0 {
-					w.cstatus[fmt.Sprintf("%x", l.CircuitID)] = 3
+					w.cstatus[fmt.Sprintf("%x", l.CircuitID)] = st
 				}
-				w.events = append(w.events, fmt.Sprintf("GRelease %s %s", vh.Bytes(clientMAC(o.C)), vh.Bytes(l.CircuitID)))
 			}
 		}
-	case "dec":
-		_, _, err := w.srv.VerifC02Handle(w.request(4, o), peer)
-		must(err)
-		if l, had := before[mac]; had {
-			if _, has := w.snap()[mac]; !has {
-				w.status[mac] = 4
-				if len(l.CircuitID) > 0 {
-					w.cstatus[fmt.Sprintf("%x", l.CircuitID)] = 4
-				}
-				w.events = append(w.events, fmt.Sprintf("GDecline %s %s", vh.Bytes(clientMAC(o.C)), vh.Bytes(l.CircuitID)))
-			}
-		}
+		w.emit(fmt.Sprintf("Sv (%s %s)", ev, cb(hw)), "OUnit")
 	case "age":
 		w.srv.VerifC02AgeLeases(time.Duration(o.D) * time.Second)
 		w.ageCache(o.D)
 		w.aged += o.D
-		w.events = append(w.events, fmt.Sprintf("GAge %d", o.D))
+		w.emit(fmt.Sprintf("Ev (GAge %d)", o.D), "OUnit")
 	case "clean":
 		w.srv.VerifC02CleanupTick()
-		after := w.snap()
+		after := w.leases()
 		var gone []string
 		for m := range before {
 			if _, has := after[m]; !has {
@@ -474,23 +623,27 @@ func (w *world) apply(o HOp) {
 			if len(l.CircuitID) > 0 {
 				w.cstatus[fmt.Sprintf("%x", l.CircuitID)] = 2
 			}
-			hw, _ := net.ParseMAC(m)
-			w.events = append(w.events, fmt.Sprintf("GExpire %s %s", vh.Bytes(hw), vh.Bytes(l.CircuitID)))
+			w.emit(fmt.Sprintf("Sv (SExpire %s)", cb(macBytes(m))), "OUnit")
 		}
 	case "vlan":
-		a, err := w.loader.GetSubscriber(bngebpf.MACToUint64(clientMAC(o.C)))
+		a, err := w.loader.GetSubscriber(bngebpf.MACToUint64(hw))
 		if err == nil {
 			must(w.loader.AddVLANSubscriber(o.STag, o.CTag, a))
 		}
-		w.events = append(w.events, fmt.Sprintf("GVlan %d %d %s", o.STag, o.CTag, vh.Bytes(clientMAC(o.C))))
+		w.emit(fmt.Sprintf("Ev (GVlan %d %d %s)", o.STag, o.CTag, cb(hw)), "OUnit")
 	default:
 		must(fmt.Errorf("unknown history op %q", o.K))
 	}
+	w.snap()
 }
 
-func (e *env) build(c Case) *world {
-	w := e.newWorld(c)
-	for _, o := range c.Hist {
+// build: a throw-away copy of the world after the first k history ops
+func (e *env) build(c Case, k int) *world {
+	w := e.newWorld(c, true)
+	if k > len(c.Hist) {
+		k = len(c.Hist)
+	}
+	for _, o := range c.Hist[:k] {
 		w.apply(o)
 	}
 	return w
@@ -564,7 +717,32 @@ func (w *world) slow(f []byte) slowView {
 	return sv
 }
 
-// frame as a Coq term with zero runs compressed: unz [B [..]; Z n; ...]
+// frame as a Coq term: zero runs compressed, literal runs packed seven bytes per uint63 literal
+// (Model/XdpDhcpWire.v wz): unz [B (wz n [..]); Z n; ...]
+// cb: a byte string as a Coq term; four bytes and more are packed (one numeral per seven bytes)
+func cb(b []byte) string {
+	if len(b) < 4 {
+		return vh.Bytes(b)
+	}
+	return "(" + coqWords(b)[2:] + ")"
+}
+
+func coqWords(b []byte) string {
+	var ws []string
+	for i := 0; i < len(b); i += 7 {
+		j := i + 7
+		if j > len(b) {
+			j = len(b)
+		}
+		var v uint64
+		for _, x := range b[i:j] {
+			v = v<<8 | uint64(x)
+		}
+		ws = append(ws, fmt.Sprintf("%d", v))
+	}
+	return fmt.Sprintf("B (wz %d [%s]%%uint63)", len(b), strings.Join(ws, ";"))
+}
+
 func coqFrame(f []byte) string {
 	var ch []string
 	i := 0
@@ -573,7 +751,7 @@ func coqFrame(f []byte) string {
 		for j < len(f) && f[j] == 0 {
 			j++
 		}
-		if j-i >= 6 {
+		if j-i >= 8 {
 			ch = append(ch, fmt.Sprintf("Z %d", j-i))
 			i = j
 			continue
@@ -586,7 +764,7 @@ func coqFrame(f []byte) string {
 				for z < len(f) && f[z] == 0 {
 					z++
 				}
-				if z-k >= 6 {
+				if z-k >= 8 {
 					break
 				}
 				k = z
@@ -594,7 +772,7 @@ func coqFrame(f []byte) string {
 			}
 			k++
 		}
-		ch = append(ch, "B "+vh.Bytes(f[i:k]))
+		ch = append(ch, coqWords(f[i:k]))
 		i = k
 	}
 	return "(unz " + vh.List(ch) + ")"
@@ -602,7 +780,7 @@ func coqFrame(f []byte) string {
 
 func (sv slowView) coq() string {
 	return fmt.Sprintf("{| sv_kind := %d; sv_yiaddr := %s; sv_sid := %s; sv_mask := %s; sv_router := %s; sv_dns := %s; sv_lease := %d; sv_status := %d |}",
-		sv.Kind, vh.Bytes(sv.Yi), vh.Bytes(sv.Sid), vh.Bytes(sv.Mask), vh.Bytes(sv.Router), vh.Bytes(sv.DNS), sv.Lease, sv.Status)
+		sv.Kind, cb(sv.Yi), cb(sv.Sid), cb(sv.Mask), cb(sv.Router), cb(sv.DNS), sv.Lease, sv.Status)
 }
 
 // ---------------------------------------------------------------- maps: dump, transform, sync
@@ -631,17 +809,17 @@ func (e *env) dumpMaps() dump {
 func coqKV(kvs []bpfrun.KV) string {
 	var it []string
 	for _, kv := range kvs {
-		it = append(it, vh.Pair(vh.Bytes(kv.Key), vh.Bytes(kv.Value)))
+		it = append(it, vh.Pair(cb(kv.Key), cb(kv.Value)))
 	}
 	return vh.List(it)
 }
 
 func (d dump) coqDump() string {
-	return fmt.Sprintf("ODump %s %s %s %s %s", coqKV(d.m[0]), coqKV(d.m[1]), coqKV(d.m[2]), coqKV(d.m[3]), vh.Bytes(d.cfg))
+	return fmt.Sprintf("ODump %s %s %s %s %s", coqKV(d.m[0]), coqKV(d.m[1]), coqKV(d.m[2]), coqKV(d.m[3]), cb(d.cfg))
 }
 func (d dump) coqMaps(origin int) string {
 	return fmt.Sprintf("{| m_sub := %s; m_vlan := %s; m_cid := %s; m_pool := %s; m_cfg := Some %s; m_origin := %d |}",
-		coqKV(d.m[0]), coqKV(d.m[1]), coqKV(d.m[2]), coqKV(d.m[3]), vh.Bytes(d.cfg), origin)
+		coqKV(d.m[0]), coqKV(d.m[1]), coqKV(d.m[2]), coqKV(d.m[3]), cb(d.cfg), origin)
 }
 
 func rev4(b []byte, off int) {
@@ -743,9 +921,9 @@ func (e *env) runKernel(f []byte) (xdpOut, uint64) {
 	return xdpOut{V: int(v), Data: out}, now
 }
 
-func expiryOf(d dump, mac net.HardwareAddr) (uint64, bool) {
+func expiryOf(d dump, hw []byte) (uint64, bool) {
 	key := make([]byte, 8)
-	binary.LittleEndian.PutUint64(key, bngebpf.MACToUint64(mac))
+	binary.LittleEndian.PutUint64(key, bngebpf.MACToUint64(hw))
 	for _, kv := range d.m[0] {
 		if bytes.Equal(kv.Key, key) {
 			return binary.LittleEndian.Uint64(kv.Value[13:]), true
@@ -767,45 +945,43 @@ func lenClass(n int) string {
 	}
 }
 
-func (e *env) run(c Case) vh.Case {
-	tags := map[string]bool{"mode:" + c.Mode: true}
-	var items []string
-	var active dump
-	var w *world
-	unow := uint64(time.Now().Unix())
-	if c.Mode == "raw" {
-		active = rawDump(c.Raw)
-		e.loadKernel(active)
-		items = append(items, vh.Pair("SetMaps "+active.coqMaps(2), "OUnit"))
-	} else {
-		w = e.build(c)
-		d := e.dumpMaps()
-		for i, ev := range w.events {
-			o := "OUnit"
-			if i == len(w.events)-1 {
-				o = d.coqDump()
-			}
-			items = append(items, vh.Pair("Ev ("+ev+")", o))
-		}
-		for _, o := range c.Hist {
-			tags["hist:"+o.K] = true
-		}
-		active = d
-		if c.Mode == "net" {
-			active = d.netOrder()
-			e.loadKernel(active)
-			items = append(items, vh.Pair("SetMaps "+active.coqMaps(1), "OUnit"))
-		}
-		unow = uint64(time.Now().Unix())
+// the IPv4 header of a frame (offset), following the tags as the program does
+func l3Off(f []byte) (int, bool) {
+	if len(f) < 14 {
+		return 0, false
 	}
-	e.loadNative(active)
+	l2 := 14
+	et := binary.BigEndian.Uint16(f[12:])
+	if et == 0x8100 || et == 0x88a8 {
+		if len(f) < 18 {
+			return 0, false
+		}
+		et = binary.BigEndian.Uint16(f[16:])
+		l2 = 18
+		if et == 0x8100 {
+			if len(f) < 22 {
+				return 0, false
+			}
+			et = binary.BigEndian.Uint16(f[20:])
+			l2 = 22
+		}
+	}
+	if et != 0x0800 || len(f) < l2+20 {
+		return 0, false
+	}
+	return l2, true
+}
 
+// probeAll: the probes of one probe point against the current kernel maps [d] (already loaded)
+func (e *env) probeAll(c Case, k int, idx []int, active dump, unow uint64, tags map[string]bool) []string {
+	e.loadNative(active)
 	type pres struct {
 		now uint64
 		out xdpOut
 	}
-	results := make([]pres, len(c.Probes))
-	for i, p := range c.Probes {
+	results := make([]pres, len(idx))
+	for j, i := range idx {
+		p := c.Probes[i]
 		var now uint64
 		var out xdpOut
 		if p.Route == "k" && len(p.Frame) >= 14 {
@@ -822,7 +998,7 @@ func (e *env) run(c Case) vh.Case {
 		} else {
 			now = p.Now
 			if p.NowRel != "" {
-				ex, ok := expiryOf(active, clientMAC(p.C))
+				ex, ok := expiryOf(active, c.hw(p.C))
 				if !ok {
 					ex = 1000
 				}
@@ -838,15 +1014,17 @@ func (e *env) run(c Case) vh.Case {
 			out = e.runNative(p.Frame, now)
 			tags["route:native"] = true
 		}
-		results[i] = pres{now, out}
+		results[j] = pres{now, out}
 	}
-	for i, p := range c.Probes {
+	var items []string
+	for j, i := range idx {
+		p := c.Probes[i]
 		sv := slowView{Kind: 99}
 		if c.Mode != "raw" {
-			w = e.build(c) // fresh state: the slow path consumes it
+			w := e.build(c, k) // fresh state: the slow path consumes it
 			sv = w.slow(p.Frame)
 		}
-		r := results[i]
+		r := results[j]
 		fo := "None"
 		if !bytes.Equal(r.out.Data, p.Frame) {
 			fo = "(Some " + coqFrame(r.out.Data) + ")"
@@ -857,10 +1035,93 @@ func (e *env) run(c Case) vh.Case {
 		if r.out.V == 3 {
 			tags[fmt.Sprintf("tx:slow-kind-%d", sv.Kind)] = true
 			tags[fmt.Sprintf("tx:status-%d", sv.Status)] = true
+			if l3, ok := l3Off(r.out.Data); ok {
+				// independent of Model and monitor: the ten header words of what went out sum to 0xFFFF
+				var s uint32
+				for q := 0; q < 20; q += 2 {
+					s += uint32(binary.BigEndian.Uint16(r.out.Data[l3+q:]))
+				}
+				for s>>16 != 0 {
+					s = s&0xffff + s>>16
+				}
+				if s != 0xffff {
+					e.badChecksums++
+					tags["tx:bad-ip-checksum"] = true
+				}
+				var ls uint32 // first fold of the little-endian sum as the C code forms it (checksum field as 0)
+				for q := 0; q < 20; q += 2 {
+					if q != 10 {
+						ls += uint32(binary.LittleEndian.Uint16(r.out.Data[l3+q:]))
+					}
+				}
+				if ls&0xffff+ls>>16 >= 0x10000 {
+					tags["tx:checksum-second-fold"] = true
+					e.secondFolds++
+				}
+			}
+			if dh, ok := udpPayload(p.Frame); ok && len(dh) > 2 && dh[2] != 6 {
+				tags["tx:hlen-not-6"] = true
+			}
 		} else if !bytes.Equal(r.out.Data, p.Frame) {
 			tags["pass:modified"] = true
 		}
 		tags[lenClass(len(p.Frame))] = true
+	}
+	return items
+}
+
+func (e *env) run(c Case) vh.Case {
+	tags := map[string]bool{"mode:" + c.Mode: true}
+	var items []string
+	all := func(k int) []int {
+		var idx []int
+		for i, p := range c.Probes {
+			at := p.At
+			if at == 0 || at > len(c.Hist) {
+				at = len(c.Hist)
+			}
+			if at == k {
+				idx = append(idx, i)
+			}
+		}
+		return idx
+	}
+	if c.Mode == "raw" {
+		active := rawDump(c.Raw)
+		e.loadKernel(active)
+		items = append(items, vh.Pair("SetMaps "+active.coqMaps(2), "OUnit"))
+		items = append(items, e.probeAll(c, 0, all(0), active, uint64(time.Now().Unix()), tags)...)
+	} else {
+		w := e.newWorld(c, false)
+		for k := 0; k <= len(c.Hist); k++ {
+			if k > 0 {
+				w.apply(c.Hist[k-1])
+				tags["hist:"+c.Hist[k-1].K] = true
+			}
+			idx := all(k)
+			if len(idx) == 0 {
+				continue
+			}
+			if k < len(c.Hist) {
+				tags["probe:mid-history"] = true
+			}
+			d := e.dumpMaps()
+			active := d
+			items = append(items, w.items...)
+			w.items = nil
+			if c.Mode == "net" {
+				active = d.netOrder()
+				e.loadKernel(active)
+				items = append(items, vh.Pair("Swap", "OUnit"))
+			}
+			items = append(items, e.probeAll(c, k, idx, active, uint64(time.Now().Unix()), tags)...)
+			// the slow views were taken on throw-away copies that wrote into the same kernel maps: restore
+			e.loadKernel(d)
+			if c.Mode == "net" {
+				items = append(items, vh.Pair("Swap", "OUnit"))
+			}
+		}
+		items = append(items, w.items...)
 	}
 	var tl []string
 	for t := range tags {
@@ -870,8 +1131,8 @@ func (e *env) run(c Case) vh.Case {
 	return vh.Case{Coq: vh.List(items), Desc: c, Tags: tl}
 }
 
-const header = `From Coq Require Import NArith List. Import ListNotations.
-From Verif Require Import Base.Word Model.XdpDhcp Model.XdpDhcpSpec Model.XdpDhcpCheck.
+const header = `From Coq Require Import NArith List Uint63. Import ListNotations.
+From Verif Require Import Base.Word Model.XdpDhcp Model.XdpDhcpSpec Model.XdpDhcpCheck Model.XdpDhcpWire.
 Local Open Scope N_scope.
 Definition cases : list case := [
 `
@@ -911,7 +1172,8 @@ func main() {
 		return map[string]interface{}{"kernel_bpf": true, "verifier_ok": e.obj.VerifierOK,
 			"kernel_test_runs": e.kernelRuns, "native_runs": e.nativeRuns, "kernel_native_compared": e.kvCompared,
 			"kernel_native_disagree": e.kvDisagree, "kernel_native_disagree_first": e.disagreeNote, "native_faults": e.faults,
-			"slow_path_replies": e.slowReplies, "slow_path_silent": e.slowSilent, "object": objPath}
+			"slow_path_replies": e.slowReplies, "slow_path_silent": e.slowSilent, "object": objPath,
+			"tx_bad_ip_checksum": e.badChecksums, "tx_checksum_second_fold": e.secondFolds}
 	}
 	runAll := func(cs []Case) []vh.Case {
 		var out []vh.Case
@@ -921,6 +1183,7 @@ func main() {
 		return out
 	}
 	if cfg.Replay != "" {
+		fullSnap = true
 		var c Case
 		must(vh.LoadReplay(cfg.Replay, &c))
 		vh.Emit(cfg, "cases", header, footer, runAll([]Case{c}), extra())
@@ -940,9 +1203,9 @@ func main() {
 		return
 	}
 	r := vh.NewRng(cfg.Seed)
-	n := map[string]int{"go": 50, "guarded": 30, "net": 40, "defect": 30, "raw": 40, "lens": 1}
+	n := map[string]int{"go": 50, "guarded": 40, "net": 50, "defect": 30, "raw": 50, "lens": 1, "life": 60, "hw": 12, "cksum": 25}
 	if cfg.Thorough() {
-		n = map[string]int{"go": 750, "guarded": 450, "net": 600, "defect": 400, "raw": 600, "lens": 10}
+		n = map[string]int{"go": 750, "guarded": 450, "net": 600, "defect": 400, "raw": 600, "lens": 10, "life": 1200, "hw": 300, "cksum": 500}
 	}
 	streams := []struct {
 		name string
@@ -955,6 +1218,9 @@ func main() {
 		{"defect", genDefect, nil},
 		{"raw", genRaw, nil},
 		{"lens", genLens, map[string]interface{}{"exhaustive": true, "note": "every frame length 0..valid+24 of one request per case (native runner; kernel for >= 14)"}},
+		{"life", genLife, map[string]interface{}{"note": "lease life cycle, two probes after every message; net-mode cases are inside the guards"}},
+		{"hw", genHW, map[string]interface{}{"exhaustive": true, "note": "every hlen 0..17, 64, 255 per case against one cached subscriber"}},
+		{"cksum", genCksum, map[string]interface{}{"guarded": "IP identification steered onto the folding boundaries of the reply header sum (five categories x two probes per case)"}},
 	}
 	for _, s := range streams {
 		var cs []Case
